@@ -16,6 +16,11 @@ def register():
     import p_msgmap
     REGISTRY["C04"] = (p_msgmap.run_c04, "proof")
     REGISTRY["C05"] = (p_msgmap.run_c05, "proof")
+    import p_vsign
+    REGISTRY["C13"] = (p_vsign.run_c13, "proof")
+    REGISTRY["C14"] = (p_vsign.run_c14, "proof")
+    import p_c12
+    REGISTRY["C12"] = (p_c12.run_c12, "proof")
     import p_signtype
     REGISTRY["C19"] = (p_signtype.run_c19, "proof")
 
